@@ -1213,7 +1213,10 @@ def _np_arange(ex, args, kwargs, node):
 @model("numpy.array", "numpy.asarray")
 def _np_array(ex, args, kwargs, node):
     v = args[0]
-    dt = _dtype_of(_kw(args, kwargs, 1, "dtype"))
+    dtarg = _kw(args, kwargs, 1, "dtype")
+    dt = _dtype_of(dtarg)
+    if dtarg is not None and not isinstance(dtarg, NoneV):
+        ex.emit("cast", node, value=v, dtype=dt, how="array", target=dtarg)
     if isinstance(v, Num):
         if v.pytype in ("frame", "series", "index"):
             return Num(v.nf, v.shape, dt or v.dtype, "ndarray", arr=v.arr, cond=v.cond, meta={"alias_of": v})
@@ -1311,7 +1314,7 @@ def _np_append(ex, args, kwargs, node):
         v = _arr(ex, x, node)
         if v.shape is not None and len(v.shape) == 0:
             v = Num(v.nf, (NF.const(1),), v.dtype, "ndarray")
-        elif v.shape is None or len(v.shape) != 1:
+        elif v.shape is not None and len(v.shape) != 1:
             raise Undecided("np.append of operands that are not 1-D", node)
         parts.append(v)
     return _np_concatenate(ex, [TupleV(parts)], {}, node)
@@ -1955,6 +1958,7 @@ def num_method(ex, v: Num, name, args, kwargs, node):
         return v
     if name == "astype":
         dt = _dtype_of(args[0]) if args else None
+        ex.emit("cast", node, value=v, dtype=dt, how="astype", target=args[0] if args else None)
         return Num(v.nf, v.shape, dt or v.dtype, v.pytype, cond=v.cond, meta=dict(v.meta))
     if name in ("argmax", "argmin"):
         return EXT["numpy." + name](ex, [v] + list(args), kwargs, node)
